@@ -110,19 +110,7 @@ def _sig_var_word_steals_option_value(w):
     return any(a[0] in ('sDet', 'lDet') and is_var_word(a[-1]) for a in (case.get('asgs') or []))
 
 
-def _sig_backend_choice_from_config(w):
-    """F-C16e: a config section / DOIT_CONFIG names a `backend` that does not exist and doit died with the TypeError"""
-    case = w.get('case') or {}
-    res = (w.get('impl') or {}).get('res') or {}
-    known = set(optlib.BACKEND_CLASS) if case.get('plugins') else set(optlib.BACKEND_CLASS) - {'vmem'}
-    named = [c_.get('raw', c_.get('val')) for fld in ('ini', 'glob') for k, c_ in case.get(fld) or [] if k == 'backend'] + \
-            [v for k, v in case.get('dodo') or [] if k == 'backend']
-    return (case.get('path') == 'main' and any(v not in known for v in named)
-            and res.get('err') == 'crash' and "'NoneType' object is not callable" in str(res.get('exc')))
-
-
 SIGNATURES = {'var-word-steals-option-value': _sig_var_word_steals_option_value,
-              'backend-choice-from-config-unchecked': _sig_backend_choice_from_config,
               }
 
 PATHS = ['parse', 'parse', 'command', 'main', 'premain', 'task', 'runtask', 'creator']
@@ -342,6 +330,8 @@ def model_request(case):
     add_layers(req, case)
     if case['path'] in VIA_DOITMAIN and not case.get('api'):
         req['strip'] = True
+    if case.get('plugins'):
+        req['late'] = ['backend']           # choices attached after overwrite_defaults, validated afterwards (pipelineLate)
     if case.get('api'):
         req['ini'] = case['task_opts']      # task_opts[t] replaces the per-task section as t.cfg_values
     req['op'] = 'parse' if case['path'] in ('parse', 'realcmd') else 'pipeline'
@@ -462,18 +452,13 @@ def judge(case, impl, model, spec):
         return viol, div            # the tokens in front of the command name do not parse as loader options: not generated
     loader_names = set(o['name'] for o in case.get('lspec') or [])
     # ---- (K)
-    late_choices = str(case.get('malformed') or '').startswith('bad-choice-backend') and 'err' in (r1 or {}) and \
-        ('err' in model['res'] or "'NoneType' object is not callable" in str(r1.get('exc')))
-    # (an unknown backend name in a config source: doit attaches the choices of `backend` after overwrite_defaults and
-    #  never validates DOIT_CONFIG -- F-C16e; the model has the choices from the start and does not model the later
-    #  TypeError: only "is an error" is compared; counted as plugins:bad-choice-backend-*)
-    if not late_choices and not same_result(r1, model['res'], case):
+    if not same_result(r1, model['res'], case):
         div.append('M4/%s: result differs: impl %s model %s' % (path, canon(res_key(r1))[:300],
                                                                canon(res_key(model['res']))[:300]))
     if path == 'premain' and 'ok' in (r1 or {}) and not same_result(impl.get('setup'), model.get('setup'), case):
         div.append('M4/premain: parameters handed to loader.setup differ: impl %s model %s'
                    % (canon(res_key(impl.get('setup')))[:300], canon(res_key(model.get('setup')))[:300]))
-    if path in ('main', 'premain', 'runtask') and 'exit' in impl and impl['exit'] != model.get('exit') and not late_choices:
+    if path in ('main', 'premain', 'runtask') and 'exit' in impl and impl['exit'] != model.get('exit'):
         div.append('M4/main: DoitMain.run ended with %s, the model with exit %s' % (impl['exit'], model.get('exit')))
     if path in ('parse', 'realcmd') and not impl.get('ctor'):
         if not same_result(impl.get('res2'), model['res2'], case):
@@ -809,7 +794,7 @@ def account(st, case, impl, model, spec):
             onc = any(o_name in json.dumps(case['asgs']) for o_name in {'continue': ['"c"', 'continue'], 'verbosity': ['"v"', 'verbosity'], 'num_process': ['"n"', 'process']}[o])
             st.count('realrun:%s-sources=%s%s' % (o, srcs or '-', '+argv' if onc else ''))
     if str(case.get('malformed') or '').startswith('bad-choice-backend'):
-        st.count('plugins:%s (K compares only error/no error)' % case['malformed'])
+        st.count('plugins:%s' % case['malformed'])
     if case.get('plugins'):
         st.count('plugins:config-%s,backend-seen=%s' % (case['ini_mode'], impl.get('backend_seen')))
     if case.get('api'):
